@@ -13,8 +13,8 @@ EXPLANATION = (
     "literal 0 under the non-empty assertion). (seeded) the monomorphic reachability set of Multinomial::sample contains no "
     "entropy source and no re-seeding (fastrand global functions, Rng::new/default/with_seed/seed/fork, getrandom, time): all "
     "randomness comes from self.rng; Multinomial::with_seed builds that field from Rng::with_seed(seed) of its parameter and the "
-    "rng field is written nowhere else. Maximality of arg-max and non-zero probability of the sampled candidate are value-level "
-    "and not decided.")
+    "rng field is written nowhere else. (nonzero) multinomial() yields Some(index) only under `prob > 0` for that index and the "
+    "fallback index is used only on None. Maximality of arg-max is value-level and not decided.")
 ASSUMPTIONS = ["fastrand::Rng is a deterministic function of its seed and call sequence"]
 CRATE = 'rten_generate'
 TRAIT = 'rten_generate::sampler::Sampler'
